@@ -105,11 +105,20 @@ def check_counted(ctx, prog, stats, rc):
             if rc.n != rbefore:
                 ctx.violation(f"{rc.n - rbefore} resolution(s) (MultiTypeMap.mro) computed on a repeated call that had succeeded", dict(case, resolutions=True))
                 return
-    # operations that do not change the set of methods must not throw the tables away: adding no mixin, adding the function to itself
-    for noop in ("add_mixins()", "add_mixins(self)"):
+    # operations that do not change the set of methods must not throw the tables away: adding no mixin, adding the function to
+    # itself, the read-only display helpers
+    import io, contextlib
+    for noop in ("add_mixins()", "add_mixins(self)", "display_methods()", "display_resolution(args)"):
         try:
-            b.ov.add_mixins(*([b.ov] if noop.endswith("(self)") else []))
-        except Exception:   # a locked function refuses: nothing to observe
+            with contextlib.redirect_stdout(io.StringIO()):
+                if noop.startswith("add_mixins"):
+                    b.ov.add_mixins(*([b.ov] if noop.endswith("(self)") else []))
+                elif noop == "display_methods()":
+                    b.ov.display_methods()
+                else:
+                    c0 = prog["calls"][prog["seq"][0]] if prog["seq"] else prog["calls"][0]
+                    b.ov.display_resolution(*[w.instance(c) for c in c0["pos"]])
+        except Exception:   # a locked function refuses / the display helper is unavailable: nothing to observe
             continue
         for step, i in enumerate(prog["seq"][:8]):
             if not ok[i]:
